@@ -68,6 +68,11 @@ type c02Env struct {
 	// quietOracle: the environment is reused by another property's unit; C02's
 	// own violations are not reported there.
 	quietOracle bool
+	f6Reached   bool
+	f7Reached   bool
+	// unknownEpoch: a follower asked a leader about a leader epoch that leader
+	// has no record of (the follower wrote under an epoch the leader never saw)
+	unknownEpoch bool
 }
 
 func (e *c02Env) logf(format string, a ...interface{}) {
@@ -166,7 +171,23 @@ func c02NewEnv(rep *kit.Report, family string, seed uint64) (*c02Env, error) {
 		learned := false
 		if n := e.c.Nodes[srv]; n != nil && n.IsUp() {
 			if p := n.Partition(e.stream, 0); p != nil {
-				for _, ent := range c02EpochEntries(p) {
+				ents := c02EpochEntries(p)
+				knows, newer := reqEpoch == 0, false
+				for _, ent := range ents {
+					if ent[0] == int64(reqEpoch) {
+						knows = true
+					}
+					if ent[0] > int64(reqEpoch) {
+						newer = true
+					}
+				}
+				if !knows && newer {
+					// the follower's last leader epoch never reached this leader
+					e.mu.Lock()
+					e.unknownEpoch = true
+					e.mu.Unlock()
+				}
+				for _, ent := range ents {
 					if ent[0] > int64(reqEpoch) {
 						e.mu.Lock()
 						if !e.elected[fmt.Sprintf("%s/%d", srv, ent[0])] {
@@ -238,7 +259,10 @@ func (e *c02Env) close() {
 // [epoch, startOffset] pairs, read from the checkpoint file (the cache itself
 // is unexported in another package).
 func c02EpochEntries(p *partition) [][2]int64 {
-	dir := p.srv.config.DataDir + "/streams/" + p.Stream + "/" + fmt.Sprint(p.Id)
+	return c02EpochEntriesDir(p.srv.config.DataDir + "/streams/" + p.Stream + "/" + fmt.Sprint(p.Id))
+}
+
+func c02EpochEntriesDir(dir string) [][2]int64 {
 	b, err := os.ReadFile(dir + "/leader-epoch-checkpoint")
 	if err != nil {
 		return nil
@@ -497,7 +521,11 @@ func (e *c02Env) observeNode(n *vfNode, label string) {
 				quiet := e.quietOracle
 				e.mu.Unlock()
 				if !quiet {
-					e.rep.Violation("C02:divergence-below-hw", what, e.witness())
+					fp := "C02:divergence-below-hw"
+					if e.unknownEpoch {
+						fp += ":follower-epoch-unknown-to-leader"
+					}
+					e.rep.Violation(fp, what, e.witness())
 				}
 				e.mu.Lock()
 			}
@@ -877,7 +905,153 @@ func c02F5(e *c02Env, rng *kit.RNG) {
 	e.settle("walk-end")
 }
 
-var c02Families = map[string]func(*c02Env, *kit.RNG){"F1": c02F1, "F2": c02F2, "F3": c02F3, "F4": c02F4, "F5": c02F5}
+// F6: ISR re-expansion.  Both followers are held until the leader is alone in
+// the ISR; one follower is released, catches up and is held again; the leader
+// then commits (alone) and acks new messages; if the leader re-adds the held
+// follower to the ISR while that follower's log ends below the leader's HW,
+// the leader is stopped and the follower released: it may be elected without
+// the committed messages (the generic oracle reports that).
+func c02F6(e *c02Env, rng *kit.RNG) {
+	l := e.leader()
+	if l == nil {
+		return
+	}
+	if !e.publishAcked(rng.Range(2, 4), client.AckPolicy_ALL, 30*time.Second) {
+		e.inconclusive("initial publishes not acked")
+		return
+	}
+	fol := c02Others(e.c, l.ID)
+	x, y := fol[0], fol[1]
+	if rng.Bool() {
+		x, y = y, x
+	}
+	e.hold(x)
+	e.hold(y)
+	if !e.waitISR(1) {
+		return
+	}
+	lp := l.Partition(e.stream, 0)
+	xp := e.c.Nodes[x].Partition(e.stream, 0)
+	reached := false
+	for attempt := 0; attempt < 6 && !reached; attempt++ {
+		e.release(x)
+		if !vfWait(20*time.Second, func() bool { return xp.log.NewestOffset() >= lp.log.NewestOffset() }) {
+			e.inconclusive("released follower did not catch up")
+			return
+		}
+		e.hold(x)
+		// wait until x is parked again (no request in flight)
+		time.Sleep(50 * time.Millisecond)
+		if !e.publishAcked(rng.Range(1, 3), client.AckPolicy_ALL, 30*time.Second) {
+			e.inconclusive("publishes with the follower held again not acked")
+			return
+		}
+		// does the leader re-add x although x is now behind its HW?
+		vfWait(2500*time.Millisecond, func() bool {
+			in := false
+			for _, r := range lp.GetISR() {
+				if r == x {
+					in = true
+				}
+			}
+			if in && xp.log.NewestOffset() < lp.log.HighWatermark() {
+				reached = true
+			}
+			return reached
+		})
+	}
+	e.mu.Lock()
+	e.f6Reached = reached
+	e.mu.Unlock()
+	if !reached {
+		e.step("isr-expansion-while-behind: not observed")
+		e.release(x)
+		e.release(y)
+		e.settle("f6-not-reached")
+		return
+	}
+	e.step("isr-expansion-while-behind: %s in ISR %v with newest=%d < leader HW=%d", x, lp.GetISR(), xp.log.NewestOffset(), lp.log.HighWatermark())
+	e.observe("f6-before-kill")
+	e.stop(l.ID)
+	e.release(x)
+	e.release(y)
+	nl := e.waitLeaderNot(l.ID)
+	if nl == nil {
+		return
+	}
+	e.checkLeaderComplete("after-expansion-failover")
+	e.publish(2, client.AckPolicy_ALL, 40*time.Second)
+	if e.restart(l.ID) {
+		e.settle("f6-end")
+	}
+}
+
+// F7: fast double failover back to a former leader (the situation Kafka's
+// KIP-279 addresses).  Leader b is stopped with an uncommitted tail; a is
+// elected, writes uncommitted messages of its own epoch while the third
+// replica is held, and is stopped before anything commits; b restarts and may
+// be elected again (it is still in the ISR); a rejoins: its last epoch is
+// unknown to b.
+func c02F7(e *c02Env, rng *kit.RNG) {
+	b := e.leader()
+	if b == nil {
+		return
+	}
+	if !e.publishAcked(2, client.AckPolicy_ALL, 30*time.Second) {
+		e.inconclusive("initial publishes not acked")
+		return
+	}
+	e.settle("f7-initial")
+	others := c02Others(e.c, b.ID)
+	e.pauseReplication(b.ID)
+	if !e.allAcked(e.publish(rng.Range(3, 5), client.AckPolicy_LEADER, 15*time.Second)) {
+		e.inconclusive("tail on first leader not written")
+		return
+	}
+	e.stop(b.ID)
+	a := e.waitLeaderNot(b.ID)
+	if a == nil {
+		return
+	}
+	var c string
+	for _, id := range others {
+		if id != a.ID {
+			c = id
+		}
+	}
+	e.hold(c)
+	// a writes under its epoch; nothing can commit while b (dead) and c (held)
+	// are in the ISR, i.e. for one lag period: stop a before that.
+	if !e.allAcked(e.publish(rng.Range(2, 3), client.AckPolicy_LEADER, 10*time.Second)) {
+		e.inconclusive("tail on second leader not written")
+		return
+	}
+	ap := a.Partition(e.stream, 0)
+	if ap.ISRSize() != 3 {
+		e.inconclusive("ISR already shrunk before the second leader could be stopped")
+		return
+	}
+	e.stop(a.ID)
+	if !e.restart(b.ID) {
+		return
+	}
+	e.release(c)
+	nl := e.waitLeaderNot(a.ID)
+	if nl == nil {
+		return
+	}
+	e.mu.Lock()
+	e.f7Reached = nl.ID == b.ID
+	e.mu.Unlock()
+	e.step("third-leader=%s (former leader re-elected: %v)", nl.ID, nl.ID == b.ID)
+	if !e.restart(a.ID) {
+		return
+	}
+	e.publish(3, client.AckPolicy_ALL, 45*time.Second)
+	e.settle("f7-end")
+}
+
+var c02Families = map[string]func(*c02Env, *kit.RNG){"F1": c02F1, "F2": c02F2, "F3": c02F3, "F4": c02F4, "F5": c02F5, "F6": c02F6, "F7": c02F7}
 
 // TestVerifC02 runs the scenarios of one family (env C02_FAMILY), one after
 // the other, each on a fresh cluster.
@@ -897,6 +1071,9 @@ func TestVerifC02(t *testing.T) {
 	n := kit.Scale(1, 10)
 	if family == "F5" {
 		n = kit.Scale(2, 14)
+	}
+	if family == "F7" {
+		n = kit.Scale(2, 10) // the decisive election outcome is a coin flip
 	}
 	root := kit.NewRNG(kit.Mix(kit.Seed(), uint64(family[1])))
 	for i := 0; i < n && rep.NumViolations() < 3; i++ {
@@ -921,12 +1098,23 @@ func TestVerifC02(t *testing.T) {
 		rep.Count("leader_elections_seen", int64(changes))
 		rep.Count("offset_responses_from_replication_learned_boundary", int64(e.learned))
 		rep.Count("trace_events", int64(len(e.trace)))
+		if e.f6Reached {
+			rep.Count("f6_isr_member_behind_leader_hw_reached", 1)
+		}
+		if e.f7Reached {
+			rep.Count("f7_former_leader_reelected_reached", 1)
+		}
 		steps := append([]string(nil), e.steps...)
 		e.mu.Unlock()
-		if complete && changes >= 2 {
+		if complete && (changes >= 2 || family == "F6") {
 			rep.Nontrivial(fmt.Sprintf("%s/%d", family, seed))
 		}
 		rep.Sample(map[string]any{"family": family, "seed": seed, "steps": steps})
+		if os.Getenv("C02_TRACE") != "" {
+			e.mu.Lock()
+			fmt.Fprintf(os.Stderr, "---- full trace %s/%d\n%s\n----\n", family, seed, strings.Join(e.trace, "\n"))
+			e.mu.Unlock()
+		}
 		e.close()
 	}
 }
